@@ -49,7 +49,8 @@ def run(chk):
                       "unproved": "the composition over arbitrary fault schedules (delivered_is_sent_modulo_Z) relies on zlib rejecting mixed buffers; exercised here with the real zlib, not proved"})
     for r in res[:2]:
         chk.sample({"cfg": r["cfg"], "negotiated": r["negotiated"], "relay": r["relay"], "fault": r["fault"], "offered": len(r["sent_c"]) + len(r["sent_s"]), "delivered": len(r["tunw_s"]) + len(r["tunw_c"])})
-    W.report_client_model(chk, res, "C01")
+    # (no model diff here: these runs use the REAL zlib, the models use the transparent test compression; the client and server models are
+    #  diffed against the same harnesses in C02/C06/C11 and C03..C16)
     if not chk.violations and not proof_ok:
         chk.violation("proof obligation no longer checks: " + chk.proof_detail,
                       ["# theorems of Props/C01.lean: " + ", ".join(vlib.prop_theorems("C01")), "# " + chk.proof_detail.replace("\n", "\n# ")], no_input=True)
